@@ -99,9 +99,11 @@ type groupState struct {
 }
 
 const (
-	waitFirst  = 5 * time.Second
-	waitSecond = 10 * time.Second
-	waitSlice  = 250 * time.Millisecond
+	// bound of every wait in a patient play (measured in slices; a wait that fails is
+	// only a verdict in a patient play) and in the first, searching play of a case
+	waitPatient = 15 * time.Second
+	waitSearch  = 3 * time.Second
+	waitSlice   = 250 * time.Millisecond
 )
 
 type failure struct {
@@ -152,7 +154,11 @@ func subseqConcat(data []byte, msgs [][]byte) bool {
 
 // runSession plays the case against the real listener once. infra problems are returned
 // as errors whose text starts with "infra:"; property failures as *failure.
-func runSession(c sessCase) error {
+func runSession(c sessCase, patient bool) error {
+	bound := waitSearch
+	if patient {
+		bound = waitPatient
+	}
 	f, err := getFixture()
 	if err != nil {
 		return fmt.Errorf("infra: %v", err)
@@ -316,7 +322,7 @@ func runSession(c sessCase) error {
 	}
 	disconnected := false
 	twice := func(wait func(d time.Duration) bool) bool {
-		for spent := time.Duration(0); spent < waitFirst+waitSecond; spent += waitSlice {
+		for spent := time.Duration(0); spent < bound; spent += waitSlice {
 			if wait(waitSlice) {
 				return true
 			}
@@ -336,7 +342,7 @@ func runSession(c sessCase) error {
 			return world.waitFor(d, func() bool { return len(findInv(st.planKey)) > 0 })
 		})
 		if !ok {
-			return failf("not-surfaced", "connection %d (%s -> %s) was announced but no service was handed a connection with these addresses within %v", i, st.r, st.l, waitFirst+waitSecond)
+			return failf("not-surfaced", "connection %d (%s -> %s) was announced but no service was handed a connection with these addresses within %v", i, st.r, st.l, bound)
 		}
 		world.mu.Lock()
 		st.inv = findInv(st.planKey)[0]
@@ -352,7 +358,7 @@ func runSession(c sessCase) error {
 			return world.waitFor(d, func() bool { return st.inv.pending == 0 })
 		})
 		if !ok {
-			return failf("write-stuck", "a service write on connection %d did not return within %v", i, waitFirst+waitSecond)
+			return failf("write-stuck", "a service write on connection %d did not return within %v", i, bound)
 		}
 		return nil
 	}
@@ -372,10 +378,40 @@ func runSession(c sessCase) error {
 		}
 		return tcp, udp
 	}
+	// foreign: a data frame the agent received that is tagged with addresses of no
+	// connection / datagram of this session (a.mu held)
+	foreign := func() string {
+		for _, fr := range a.frames {
+			var k string
+			switch fr.Type {
+			case tRWTCP:
+				k = connKey("tcp", fr.L.String(), fr.R.String())
+			case tRWUDP:
+				k = connKey("udp", fr.L.String(), fr.R.String())
+			default:
+				continue
+			}
+			known := false
+			for _, st := range conns {
+				known = known || (fr.Type == tRWTCP && st.planKey == k)
+			}
+			for _, m := range udps {
+				known = known || (fr.Type == tRWUDP && m.key == k)
+			}
+			if !known {
+				return k
+			}
+		}
+		return ""
+	}
 	backArrived := func() error {
+		bad := ""
 		ok := twice(func(d time.Duration) bool {
 			return a.waitFor(d, func() bool {
 				if a.rdone {
+					return true
+				}
+				if bad = foreign(); bad != "" {
 					return true
 				}
 				tcp, _ := backBytes()
@@ -387,13 +423,16 @@ func runSession(c sessCase) error {
 				return true
 			})
 		})
+		if bad != "" {
+			return failf("back-foreign", "the agent received a data frame tagged %s, which is no connection of this session", bad)
+		}
 		if !ok {
 			a.mu.Lock()
 			tcp, _ := backBytes()
 			a.mu.Unlock()
 			for i, st := range conns {
 				if len(tcp[st.planKey]) < len(st.back) {
-					return failf("back-missing", "the service wrote %d bytes on connection %d, the agent received only %d of them within %v", len(st.back), i, len(tcp[st.planKey]), waitFirst+waitSecond)
+					return failf("back-missing", "the service wrote %d bytes on connection %d, the agent received only %d of them within %v", len(st.back), i, len(tcp[st.planKey]), bound)
 				}
 			}
 		}
@@ -541,7 +580,7 @@ func runSession(c sessCase) error {
 					world.mu.Lock()
 					got := len(st.inv.data)
 					world.mu.Unlock()
-					return failf("stalled", "connection %d is open and %d bytes were sent on it, but the service had read only %d of them %v later (step %d)", i, want, got, waitFirst+waitSecond, si)
+					return failf("stalled", "connection %d is open and %d bytes were sent on it, but the service had read only %d of them %v later (step %d)", i, want, got, bound, si)
 				}
 				if err := writesDone(i); err != nil {
 					return err
@@ -582,7 +621,7 @@ func runSession(c sessCase) error {
 			})
 		})
 		if !ok {
-			return failf("udp-missing", "a relayed UDP datagram was not handed to (or not finished by) the service within %v", waitFirst+waitSecond)
+			return failf("udp-missing", "a relayed UDP datagram was not handed to (or not finished by) the service within %v", bound)
 		}
 		ok = twice(func(d time.Duration) bool {
 			return a.waitFor(d, func() bool {
@@ -603,7 +642,7 @@ func runSession(c sessCase) error {
 			})
 		})
 		if !ok {
-			return failf("udp-back-missing", "the replies a service wrote to a relayed UDP datagram did not reach the agent within %v", waitFirst+waitSecond)
+			return failf("udp-back-missing", "the replies a service wrote to a relayed UDP datagram did not reach the agent within %v", bound)
 		}
 	}
 	if err := backArrived(); err != nil {
@@ -646,7 +685,7 @@ func runSession(c sessCase) error {
 			})
 		})
 		if !ok {
-			return failf("not-surfaced", "an announced connection was not handed to a service within %v", waitFirst+waitSecond)
+			return failf("not-surfaced", "an announced connection was not handed to a service within %v", bound)
 		}
 		disconnected = true
 		a.c.Close()
@@ -675,7 +714,7 @@ func runSession(c sessCase) error {
 	if !c.Abort {
 		// the listener ends the session by closing the transport
 		if !twice(func(d time.Duration) bool { return a.waitFor(d, func() bool { return a.rdone }) }) {
-			return failf("session-not-ended", "the listener did not close the session within %v of the agent's orderly disconnect", waitFirst+waitSecond)
+			return failf("session-not-ended", "the listener did not close the session within %v of the agent's orderly disconnect", bound)
 		}
 		a.c.Close()
 	} else {
@@ -698,7 +737,7 @@ func runSession(c sessCase) error {
 			}
 			for _, inv := range invs {
 				if !inv.done {
-					return failf("not-ended", "connection %d (%s -> %s) did not end on the service side within %v of its end-of-stream / the agent's disconnect (service has read %d bytes)", i, st.r, st.l, waitFirst+waitSecond, len(inv.data))
+					return failf("not-ended", "connection %d (%s -> %s) did not end on the service side within %v of its end-of-stream / the agent's disconnect (service has read %d bytes)", i, st.r, st.l, bound, len(inv.data))
 				}
 			}
 		}
